@@ -288,12 +288,9 @@ def _project(roll, gae, rows, obs_kind, grp, alg):
     ev = [{"op": "gaestep", "t": t + 1, "adv": _mat(roll, h_adv, cmap, t)} for t in reversed(range(T))]
     if "returns" in gae:
         h_ret = _np(gae["returns"]).reshape(T, -1)
-    else:       # IPPO adds the values after reshaping (T, n) -> (T*n,), row-major
-        h_ret = _np(rows["experiences"][4]).reshape(-1)
-        if h_ret.shape[0] != h_adv.size:
-            raise Anomaly("rows-shape: all six fields of the flattened batch have one entry per row")
-        h_ret = h_ret.reshape(T, -1)
-    ev.append({"op": "returns", "ret": [_mat(roll, h_ret, cmap, t) for t in range(T)]})
+        ev.append({"op": "returns", "observed": True, "ret": [_mat(roll, h_ret, cmap, t) for t in range(T)]})
+    else:       # IPPO adds the values after flattening: its returns are only observable in the rows
+        ev.append({"op": "returns", "observed": False, "ret": []})
     fl = {"op": "flatten", "rows": _rows(roll, rows["experiences"], obs_kind, grp)}
     return ev, fl, (h_adv, cmap)
 
